@@ -353,8 +353,13 @@ theorem matmulOp_struct {A C : OpMat K} (o : Obj K) (hA : A.WF) (h : A.matmulOp 
       rw [hrow i hi, getD_map_lt _ _ j .zeroOp _ (by rw [row_length hA hi]; exact hj)]; rfl)
   exact ⟨h1, h2, by rw [h3, ncols_fix], h4⟩
 
-theorem sumN_ne_nil (l : List (Obj K)) (h : l ≠ []) :
-    Obj.sumN l = some (.sum (l.flatMap Obj.flat1)) := by
+/-- total version of `reduce(operator.add, l)` on operators -/
+def foldPlus : List (Obj K) → Obj K
+  | [] => .zeroOp
+  | a :: l => l.foldl Obj.plus a
+
+theorem reduce1_plus_ne_nil (l : List (Obj K)) (h : l ≠ []) :
+    reduce1 Obj.plus l = some (foldPlus l) := by
   cases l with
   | nil => exact absurd rfl h
   | cons a l => rfl
@@ -362,8 +367,7 @@ theorem sumN_ne_nil (l : List (Obj K)) (h : l ≠ []) :
 theorem matmul_struct {A B C : OpMat K} (hA : A.WF) (hB : B.WF) (h : A.matmul B = some C) :
     A.ncols = B.nrows ∧ C.WF ∧ C.nrows = A.nrows ∧ C.ncols = B.ncols ∧
     ∀ i, i < A.nrows → ∀ j, j < B.ncols → C.get i j =
-      .sum ((List.zipWith Obj.matmul (A.rows.getD i []) (B.rows.map (fun r => r.getD j .zeroOp))).flatMap
-        Obj.flat1) := by
+      foldPlus (List.zipWith Obj.matmul (A.rows.getD i []) (B.rows.map (fun r => r.getD j .zeroOp))) := by
   unfold matmul at h
   split at h
   · exact absurd h (by simp)
@@ -373,21 +377,21 @@ theorem matmul_struct {A B C : OpMat K} (hA : A.WF) (hB : B.WF) (h : A.matmul B 
   simp only [Option.bind_some] at h
   rw [mapOpt_eq_some_map _ (fun row => ((List.range B.ncols).map
       (fun j => B.rows.map (fun r => r.getD j .zeroOp))).map (fun col =>
-        Obj.sum ((List.zipWith Obj.matmul row col).flatMap Obj.flat1)))] at h
+        foldPlus (List.zipWith Obj.matmul row col)))] at h
   · simp only [Option.bind_some] at h
     obtain ⟨_, rfl⟩ := (ofRows_eq_some _ _).1 h
     have hrow : ∀ i, i < A.nrows → (A.rows.map (fun row => ((List.range B.ncols).map
       (fun j => B.rows.map (fun r => r.getD j .zeroOp))).map (fun col =>
-        Obj.sum ((List.zipWith Obj.matmul row col).flatMap Obj.flat1)))).getD i []
+        foldPlus (List.zipWith Obj.matmul row col)))).getD i []
         = ((List.range B.ncols).map
       (fun j => B.rows.map (fun r => r.getD j .zeroOp))).map (fun col =>
-        Obj.sum ((List.zipWith Obj.matmul (A.rows.getD i []) col).flatMap Obj.flat1)) :=
+        foldPlus (List.zipWith Obj.matmul (A.rows.getD i []) col)) :=
       fun i hi => getD_map_lt _ _ i [] [] hi
     obtain ⟨h1, h2, h3, h4⟩ := struct_of (A.rows.map (fun row => ((List.range B.ncols).map
       (fun j => B.rows.map (fun r => r.getD j .zeroOp))).map (fun col =>
-        Obj.sum ((List.zipWith Obj.matmul row col).flatMap Obj.flat1)))) A.nrows B.ncols
-      (fun i j => .sum ((List.zipWith Obj.matmul (A.rows.getD i [])
-        (B.rows.map (fun r => r.getD j .zeroOp))).flatMap Obj.flat1))
+        foldPlus (List.zipWith Obj.matmul row col)))) A.nrows B.ncols
+      (fun i j => foldPlus (List.zipWith Obj.matmul (A.rows.getD i [])
+        (B.rows.map (fun r => r.getD j .zeroOp))))
       (by simp [nrows])
       (fun i hi => by rw [hrow i hi]; simp)
       (fun i hi j hj => by
@@ -407,7 +411,7 @@ theorem matmul_struct {A B C : OpMat K} (hA : A.WF) (hB : B.WF) (h : A.matmul B 
     unfold zipWithS
     rw [if_pos (by simp [hl, nrows])]
     simp only [Option.bind_some]
-    apply sumN_ne_nil
+    apply reduce1_plus_ne_nil
     intro hnil
     have h1 := congrArg List.length hnil
     rw [List.length_zipWith, List.length_map, hl] at h1
@@ -893,20 +897,30 @@ end OpMat
 section Sem
 variable (Lf La : Nat → (Nat → K) → (Nat → K))
 
-theorem flat1_eq_fl (o : Obj K) : Obj.flat1 o = Obj.fl o := by cases o <;> rfl
+theorem fwd_foldl_plus (l : List (Obj K)) (a : Obj K) (x : Nat → K) (t : Nat) :
+    Obj.fwd Lf La (l.foldl Obj.plus a) x t
+      = Obj.fwd Lf La a x t + (l.map (fun o => Obj.fwd Lf La o x t)).sum := by
+  induction l generalizing a with
+  | nil => simp
+  | cons b l ih => rw [List.foldl_cons, ih, fwd_plus]; simp [add_assoc]
+theorem adj_foldl_plus (l : List (Obj K)) (a : Obj K) (x : Nat → K) (t : Nat) :
+    Obj.adj Lf La (l.foldl Obj.plus a) x t
+      = Obj.adj Lf La a x t + (l.map (fun o => Obj.adj Lf La o x t)).sum := by
+  induction l generalizing a with
+  | nil => simp
+  | cons b l ih => rw [List.foldl_cons, ih, adj_plus]; simp [add_assoc]
 
-theorem fwd_sumFlat (l : List (Obj K)) (x : Nat → K) (t : Nat) :
-    Obj.fwd Lf La (.sum (l.flatMap Obj.flat1)) x t = (l.map (fun o => Obj.fwd Lf La o x t)).sum := by
-  rw [Obj.fwd]
-  induction l with
-  | nil => simp [Obj.fwdSum]
-  | cons a l ih => rw [List.flatMap_cons, fwdSum_append, ih, flat1_eq_fl, fwdSum_fl]; simp
-theorem adj_sumFlat (l : List (Obj K)) (x : Nat → K) (t : Nat) :
-    Obj.adj Lf La (.sum (l.flatMap Obj.flat1)) x t = (l.map (fun o => Obj.adj Lf La o x t)).sum := by
-  rw [Obj.adj]
-  induction l with
-  | nil => simp [Obj.adjSum]
-  | cons a l ih => rw [List.flatMap_cons, adjSum_append, ih, flat1_eq_fl, adjSum_fl]; simp
+/-- the left fold of `__add__` (with the `ZeroOp` shortcuts and flattening) evaluates to the sum -/
+theorem fwd_foldPlus (l : List (Obj K)) (x : Nat → K) (t : Nat) :
+    Obj.fwd Lf La (OpMat.foldPlus l) x t = (l.map (fun o => Obj.fwd Lf La o x t)).sum := by
+  cases l with
+  | nil => simp [OpMat.foldPlus, Obj.fwd]
+  | cons a l => simp only [OpMat.foldPlus, fwd_foldl_plus, List.map_cons, List.sum_cons]
+theorem adj_foldPlus (l : List (Obj K)) (x : Nat → K) (t : Nat) :
+    Obj.adj Lf La (OpMat.foldPlus l) x t = (l.map (fun o => Obj.adj Lf La o x t)).sum := by
+  cases l with
+  | nil => simp [OpMat.foldPlus, Obj.adj]
+  | cons a l => simp only [OpMat.foldPlus, adj_foldl_plus, List.map_cons, List.sum_cons]
 
 theorem fwd_ite_zero (p : Prop) [Decidable p] (o : Obj K) (x : Nat → K) (t : Nat) :
     Obj.fwd Lf La (if p then o else .zeroOp) x t = if p then Obj.fwd Lf La o x t else 0 := by
@@ -1054,7 +1068,7 @@ theorem inv_matmul {a b : MExpr K} {A B C : OpMat K} (hA : Inv Lf La a A) (hB : 
   have hfe : ∀ i, i < A.nrows → ∀ j, j < B.ncols → ∀ x t, Obj.fwd Lf La (C.get i j) x t
       = ∑ k ∈ range A.ncols, Obj.fwd Lf La (A.get i k) (Obj.fwd Lf La (B.get k j) x) t := by
     intro i hi j hj x t
-    rw [hget i hi j hj, fwd_sumFlat, List.map_zipWith,
+    rw [hget i hi j hj, fwd_foldPlus, List.map_zipWith,
       sum_zipWith_eq _ Obj.zeroOp Obj.zeroOp _ _ (by
         rw [OpMat.row_length hA.wf hi, List.length_map, hm]; rfl), OpMat.row_length hA.wf hi]
     apply Finset.sum_congr rfl
@@ -1065,7 +1079,7 @@ theorem inv_matmul {a b : MExpr K} {A B C : OpMat K} (hA : Inv Lf La a A) (hB : 
   have hae : ∀ i, i < A.nrows → ∀ j, j < B.ncols → ∀ y t, Obj.adj Lf La (C.get i j) y t
       = ∑ k ∈ range A.ncols, Obj.adj Lf La (B.get k j) (Obj.adj Lf La (A.get i k) y) t := by
     intro i hi j hj x t
-    rw [hget i hi j hj, adj_sumFlat, List.map_zipWith,
+    rw [hget i hi j hj, adj_foldPlus, List.map_zipWith,
       sum_zipWith_eq _ Obj.zeroOp Obj.zeroOp _ _ (by
         rw [OpMat.row_length hA.wf hi, List.length_map, hm]; rfl), OpMat.row_length hA.wf hi]
     apply Finset.sum_congr rfl
@@ -2294,18 +2308,18 @@ theorem matmul_isSome {A B : OpMat K} (hA : A.WF) (hB : B.WF) (hm : A.ncols = B.
   simp only [Option.bind_some]
   rw [mapOpt_eq_some_map _ (fun row => ((List.range B.ncols).map
       (fun j => B.rows.map (fun r => r.getD j .zeroOp))).map (fun col =>
-        Obj.sum ((List.zipWith Obj.matmul row col).flatMap Obj.flat1)))]
+        foldPlus (List.zipWith Obj.matmul row col)))]
   · simp only [Option.bind_some]
     have hrow : ∀ i, i < A.nrows → (A.rows.map (fun row => ((List.range B.ncols).map
       (fun j => B.rows.map (fun r => r.getD j .zeroOp))).map (fun col =>
-        Obj.sum ((List.zipWith Obj.matmul row col).flatMap Obj.flat1)))).getD i []
+        foldPlus (List.zipWith Obj.matmul row col)))).getD i []
         = ((List.range B.ncols).map
       (fun j => B.rows.map (fun r => r.getD j .zeroOp))).map (fun col =>
-        Obj.sum ((List.zipWith Obj.matmul (A.rows.getD i []) col).flatMap Obj.flat1)) :=
+        foldPlus (List.zipWith Obj.matmul (A.rows.getD i []) col)) :=
       fun i hi => getD_map_lt _ _ i [] [] hi
     have := (of_lengths (OpMat.mk (A.rows.map (fun row => ((List.range B.ncols).map
       (fun j => B.rows.map (fun r => r.getD j .zeroOp))).map (fun col =>
-        Obj.sum ((List.zipWith Obj.matmul row col).flatMap Obj.flat1))))) B.ncols
+        foldPlus (List.zipWith Obj.matmul row col))))) B.ncols
       (fun i hi => by
         have hi' : i < A.nrows := by simpa [nrows] using hi
         rw [hrow i hi']; simp)).1
@@ -2319,7 +2333,7 @@ theorem matmul_isSome {A B : OpMat K} (hA : A.WF) (hB : B.WF) (hm : A.ncols = B.
     unfold zipWithS
     rw [if_pos (by simp [hl, nrows])]
     simp only [Option.bind_some]
-    apply sumN_ne_nil
+    apply reduce1_plus_ne_nil
     intro hnil
     have h1 := congrArg List.length hnil
     rw [List.length_zipWith, List.length_map, hl] at h1
@@ -2837,10 +2851,15 @@ example : evalProgram 2 lv (.lit [[], []]) false [] = none := by decide +kernel
 example : evalProgram 2 lv (.lit [[], []]) true [] = some [] := by decide +kernel
 example : evalShape (.getitem P (.slice (some 2) none) .all) = none := by decide +kernel
 example : evalShape (.addT P (.py 2)) = none := by decide +kernel
--- the element-level shortcuts are used: `from_diagonal(I, I) @ from_diagonal(I, I)` keeps `ZeroOp`s
+-- the element-level shortcuts are used: `from_diagonal(I, I) @ from_diagonal(I, I)` is built with the
+-- operators' own `@` and `+`, so it is again `[[I, ZeroOp], [ZeroOp, I]]` (no `LinearOperatorSum` at all)
 example : (buildM (.matmul (.fromDiag [.ident, .ident]) (.fromDiag [.ident, .ident]) : MExpr Int)).map
-    (fun A => A.rows) = some [[.sum [.identity, .zeroOp], .sum [.zeroOp, .zeroOp]],
-                              [.sum [.zeroOp, .zeroOp], .sum [.zeroOp, .identity]]] := rfl
+    (fun A => A.rows) = some [[.identity, .zeroOp], [.zeroOp, .identity]] := rfl
+-- a genuine sum keeps the fold order and flattening of `reduce(operator.add, …)`: `(L0 L0 + L1 L0) + L2 L0`
+example : (buildM (.matmul (.lit [[.leaf 0, .leaf 1, .leaf 2]]) (.lit [[.leaf 0], [.leaf 0], [.leaf 0]])
+      : MExpr Int)).map (fun A => A.rows)
+    = some [[.sum [.composition (.leaf 0) (.leaf 0), .composition (.leaf 1) (.leaf 0),
+                   .composition (.leaf 2) (.leaf 0)]]] := rfl
 
 /-- the main theorems apply to dense-matrix leaves over any commutative star ring -/
 example {K : Type} [CommRing K] [StarRing K] [DecidableEq K] (n : Nat) (L : Nat → Nat → K)
